@@ -252,7 +252,7 @@ def join_tmpl(x, y):
         elif isinstance(p, frozenset) and isinstance(q, frozenset):
             out.append(p | q)
         elif isinstance(p, tuple) and isinstance(q, tuple) and p and q and isinstance(p[0], str) and p[0] == q[0] and \
-                p[0] in ("av", "nbr", "enum", "filter", "map", "filter_map", "pairs", "jobs", "fresh", "nbredges"):
+                p[0] in ("av", "nbr", "enum", "filter", "map", "filter_map", "pairs", "jobs", "fresh", "nbredges", "zip"):
             r = join_tmpl(p, q)
             if r is None:
                 return None
